@@ -97,6 +97,27 @@ def run(res):
             C.add_edge(0, n + 7)
             if canon(G) != canon(impl_graph(adj, order)):
                 res.violation('mutating a clone changed the original', {'adjacency': obs})
+            # history: the caller edits what an earlier call returned; the same call on the unchanged graph must give the
+            # same answer again (and leave G alone)
+            first = {'reversed': canon(G.get_reversed_graph()), 'subgraph': canon(G.get_subgraph(list(range(n)))),
+                     'clone': canon(impl_graph(adj, order)), 'reach': sorted(G.get_reachable_set_from([0]))}
+            R.add_edge(0, n + 7)
+            R.add_node(n + 9)
+            S.add_edge(n + 8, 0)
+            rs = G.get_reachable_set_from([0])
+            rs.add(n + 11)
+            again = {'reversed': canon(G.get_reversed_graph()), 'subgraph': canon(G.get_subgraph(list(range(n)))),
+                     'clone': canon(G.clone()), 'reach': sorted(G.get_reachable_set_from([0]))}
+            for k_ in first:
+                if first[k_] != again[k_]:
+                    res.violation('after the caller edited the object returned by an earlier %s call, the same call on the '
+                                  'unchanged graph returns something else' % k_,
+                                  {'adjacency': obs, 'operation': k_, 'first': str(first[k_])[:300], 'again': str(again[k_])[:300],
+                                   'history': ['r = G.%s(..)' % k_, 'r.add_edge(0, %d) / r.add_node(%d) / r.add(%d)' % (n + 7, n + 9, n + 11),
+                                               'G.%s(..) again' % k_]})
+            if canon(G) != canon(impl_graph(adj, order)):
+                res.violation('editing the reversed graph / subgraph / reachable set returned earlier changed the original',
+                              {'adjacency': obs})
     # scale: long paths / rings / combs (depth must not matter), through the same operations
     from pyModelChecking.graph import DiGraph
     for n in ((1500, 3000) if quick else (1500, 3000, 8000)):
